@@ -111,6 +111,22 @@ def gen_cases(ctx, tier):
         length = rng.randint(5, STEPS * sum(len(p) for p in progs) + 5)
         cases.append(core.fmt_case([k, rng.choice([0, 0, 5, 1000]), 400], progs,
                                    core.random_sched(rng, nt, length, rng.randrange(3))))
+    # counters that start just below a power-of-two boundary and cross it during the run: real start = B - d,
+    # reported values debiased (rt_bias) so that the model run from the small start s = -d mod 2^k is the reference
+    nwrap = 400 if tier == "quick" else 6000
+    for i in range(nwrap):
+        k = rng.choice([1, 1, 2, 3])
+        B = rng.choice([1 << 32, 1 << 32, 1 << 31, 1 << 16, 1 << 33])   # < 2^40: larger values are reported as opaque pointers
+        d = rng.randint(0, 5)
+        s0 = (-d) % (1 << k)
+        nt = rng.choice([1, 2, 2, 3])
+        progs = []
+        for t in range(nt):
+            n = rng.randint(2, 8)
+            progs.append([(rng.choice([PUSH, PUSH, POP, POP]), rng.randint(1, 50)) for _ in range(n)])
+        length = rng.randint(5, STEPS * sum(len(p) for p in progs) + 5)
+        cases.append(core.fmt_case([k, s0, 400, B - d - s0], progs,
+                                   core.random_sched(rng, nt, length, rng.randrange(3)) if nt > 1 else []))
     # sequential programs (one thread): results must match the sequential queue
     for _ in range(200):
         progs = [[(rng.choice([PUSH, POP]), rng.randint(1, 9)) for _ in range(rng.randint(1, 12))]]
@@ -123,7 +139,7 @@ def gen_cases(ctx, tier):
             p0 = [(PUSH, 100 + j) for j in range(pre)] + [(a, 7)]
             cases.append(core.fmt_case([1, 0, 300], [p0, [(b, 8)], [(c, 9)]], [0] * (STEPS * pre) + il))
     ctx.coverage["case_distribution"] = {"exhaustive_2thread_interleavings": n_ex,
-                                         "random_programs": nrand, "sequential": 200,
+                                         "random_programs": nrand, "sequential": 200, "counters_crossing_2^16/31/32/33": nwrap,
                                          "total": len(cases)}
     return cases
 
